@@ -119,3 +119,144 @@ class UpdateDomainKwargs(LibModel):
 
 
 CONTRACTS = [UpdateDomainKwargs]
+
+
+from eqlvc.libmodel import val_isa, str_const  # noqa: E402
+
+
+class ExtractSelected(LibModel):
+    """predicate.extract_selected_variable_and_expression: a supplied iterable domain is replaced by the LAZY filter of
+    itself by isinstance(., T) (subclasses included), the variable is built over that domain with type T, and the field
+    constraints are handed to properties_to_expression_tree unchanged (C13; laziness for C07)."""
+    qual = 'predicate:extract_selected_variable_and_expression'
+    cls = None
+    props = ('C13', 'C07')
+    modes = ('sound',)
+    trusted = ("properties_to_expression_tree builds the left-folded AND of Attribute(var, f) == v (contract PropertiesToTree)",
+               "builtin filter() is lazy (A6)")
+
+    def modenv(self):
+        env = base_modenv()
+        env['Variable'] = C(Ref('class', 'Variable'))
+        env['properties_to_expression_tree'] = C(Ref('func', 'properties_to_expression_tree'))
+        env['get_cache_keys_for_class_'] = C(Ref('func', 'get_cache_keys_for_class_'))
+        env['yield_class_values_from_cache'] = C(Ref('func', 'yield_class_values_from_cache'))
+        env['index_class_cache'] = C(Ref('func', 'index_class_cache'))
+        return env
+
+    def setup(self, eng):
+        sts = []
+        for dom_case in ('none', 'iterable', 'single'):
+            for reg in (False, True):
+                st = State()
+                st.path.append(f"domain={dom_case},registry={'non-empty' if reg else 'empty'}")
+                st.locals['symbolic_cls'] = C(Ref('class', 'T'))
+                st.locals['predicate_type'] = NONE
+                st.locals['kwargs'] = Obj('kwdict', {'tag': 'given-kwargs'})
+                st.ghost['dom_case'] = dom_case
+                st.ghost['reg'] = reg
+                st.ghost['from'] = {'domain': Obj('userdomain', {'iterable': dom_case == 'iterable'})} if dom_case != 'none' else None
+                st.locals['domain'] = Obj('from', {}) if dom_case != 'none' else NONE
+                sts.append(st)
+        return sts
+
+    def getattr(self, eng, st, recv, name):
+        if isinstance(recv, Obj) and recv.kind == 'from' and name == 'domain':
+            return [(st, st.ghost['from']['domain'])]
+        if isinstance(recv, C) and recv.v == Ref('class', 'Variable') and name == '_cache_':
+            return [(st, Obj('registry'))]
+        if isinstance(recv, C) and isinstance(recv.v, Ref) and recv.v.kind == 'class' and name == '__name__':
+            return [(st, C('T'))]
+        return super().getattr(eng, st, recv, name)
+
+    def setattr(self, eng, st, recv, name, v):
+        if isinstance(recv, Obj) and recv.kind == 'from' and name == 'domain':
+            st = st.clone()
+            st.ghost['from'] = {'domain': v}
+            return [st]
+        return super().setattr(eng, st, recv, name, v)
+
+    def obj_truth(self, eng, st, v):
+        if v.kind == 'from':
+            return True
+        if v.kind == 'cachekeys':
+            return st.ghost['reg']
+        return None
+
+    def f_get_cache_keys_for_class_(self, eng, st, args, kwargs, node):
+        return [(st, Obj('cachekeys'))]
+
+    def f_index_class_cache(self, eng, st, args, kwargs, node):
+        return [(st, FALSE)]
+
+    def f_is_iterable(self, eng, st, args, kwargs, node):
+        (o,) = args
+        if isinstance(o, Obj) and o.kind == 'userdomain':
+            return [(st, C(o.data['iterable']))]
+        if isinstance(o, Obj) and o.kind == 'filtered':
+            return [(st, TRUE)]
+        return super().f_is_iterable(eng, st, args, kwargs, node)
+
+    def f_filter(self, eng, st, args, kwargs, node):
+        fn, it = args
+        return [(st, Obj('filtered', {'fn': fn, 'of': it}))]
+
+    def f_yield_class_values_from_cache(self, eng, st, args, kwargs, node):
+        return [(st, Obj('registry_values'))]
+
+    def genexp(self, eng, st, e):
+        return [(st, Obj('genexp', {'node': e, 'env': dict(st.locals)}))]
+
+    def call(self, eng, st, f, args, kwargs, node):
+        if isinstance(f, C) and f.v == Ref('class', 'From'):
+            return [(st, Obj('from_new', {'domain': args[0]}))]
+        if isinstance(f, C) and f.v == Ref('class', 'Variable'):
+            st = st.clone()
+            st.ghost['variable'] = {'args': args, 'kwargs': kwargs}
+            return [(st, Obj('variable'))]
+        if isinstance(f, C) and f.v == Ref('func', 'properties_to_expression_tree'):
+            st = st.clone()
+            st.ghost['ptree_args'] = args
+            return [(st, Tup([Obj('expression'), Obj('attrs')]))]
+        return super().call(eng, st, f, args, kwargs, node)
+
+    def on_exit(self, eng, o):
+        st = o.st
+        tag = st.path[0]
+        if o.sig != RETURN or not isinstance(o.val, Tup):
+            eng.oblige(st, "C13/extract/returns-variable-and-expression", z3.BoolVal(False), case=tag)
+            return
+        var = st.ghost.get('variable')
+        eng.oblige(st, "C13/extract/builds-one-variable-of-type-T",
+                   z3.BoolVal(var is not None and len(var['args']) >= 2 and isinstance(var['args'][1], C)
+                              and var['args'][1].v == Ref('class', 'T')), case=tag)
+        src = var['kwargs'].get('_domain_source_') if var else None
+        if st.ghost['dom_case'] == 'iterable':
+            d = st.ghost['from']['domain'] if isinstance(src, Obj) and src.kind == 'from' else None
+            ok = isinstance(d, Obj) and d.kind == 'filtered' and isinstance(d.data['of'], Obj) and d.data['of'].kind == 'userdomain'
+            eng.oblige(st, "C13/extract/domain-is-a-lazy-filter-of-the-supplied-iterable", z3.BoolVal(bool(ok)), case=tag)
+            if ok:
+                v = z3.Const('elem', Z.Val)
+                outs = self.call_closure(eng, st, d.data['fn'], [ZV(v, 'val')], {}, None)
+                res = [eng.to_z3_bool(eng.truth(s2, r)) for s2, r in outs]
+                eng.oblige(st, "C13/extract/filter-predicate-is-isinstance-of-T",
+                           z3.And(*[r == val_isa(str_const('T'), v) for r in res]) if len(res) == 1 else z3.BoolVal(False), case=tag)
+        elif st.ghost['dom_case'] == 'single':
+            ok = isinstance(src, Obj) and src.kind == 'from' and st.ghost['from']['domain'].kind == 'userdomain'
+            eng.oblige(st, "C13/extract/single-value-domain-is-kept", z3.BoolVal(bool(ok)), case=tag)
+        pt = st.ghost.get('ptree_args')
+        eng.oblige(st, "C13/extract/field-constraints-are-passed-on-unchanged",
+                   z3.BoolVal(pt is not None and isinstance(pt[0], Obj) and pt[0].kind == 'variable'
+                              and isinstance(pt[1], Obj) and pt[1].kind == 'kwdict'), case=tag)
+
+    def f_isinstance(self, eng, st, args, kwargs, node):
+        o, cls = args
+        if isinstance(o, ZV) and o.ty == 'val' and isinstance(cls, C) and cls.v == Ref('class', 'T'):
+            return [(st, ZV(val_isa(str_const('T'), o.t), 'bool'))]
+        return super().f_isinstance(eng, st, args, kwargs, node)
+
+    def signature(self, ob, model):
+        return {'case': ob.meta.get('case')}
+
+
+CONTRACTS += [ExtractSelected]
